@@ -73,3 +73,21 @@ pub assume_specification<T, F: FnMut(&T, &T) -> Ordering> [<[T]>::sort_by] (s: &
     ensures final(s)@.to_multiset() == old(s)@.to_multiset();
 pub assume_specification<T, F: FnMut(&T, &T) -> Ordering> [<[T]>::sort_unstable_by] (s: &mut [T], f: F)
     ensures final(s)@.to_multiset() == old(s)@.to_multiset();
+
+// R11 idiom stubs (ASSUMED contracts on std iterator idioms Verus cannot ingest)
+pub trait IdiomDrainAll<T> {
+    spec fn idiom_view(&self) -> Seq<T>;
+    // `self.drain(..).collect::<Vec<T>>()`: all elements, in order; the collection is left empty
+    fn idiom_drain_all(&mut self) -> (r: Vec<T>)
+        ensures r@ == old(self).idiom_view(), final(self).idiom_view() == Seq::<T>::empty();
+}
+impl<T> IdiomDrainAll<T> for VecDeque<T> {
+    open spec fn idiom_view(&self) -> Seq<T> { self@ }
+    #[verifier::external_body]
+    fn idiom_drain_all(&mut self) -> (r: Vec<T>) { unimplemented!() }
+}
+impl<T> IdiomDrainAll<T> for Vec<T> {
+    open spec fn idiom_view(&self) -> Seq<T> { self@ }
+    #[verifier::external_body]
+    fn idiom_drain_all(&mut self) -> (r: Vec<T>) { unimplemented!() }
+}
